@@ -4,7 +4,7 @@ set -e
 cd "$(dirname "$0")"
 export GOFLAGS=-mod=mod GOPROXY=off GOSUMDB=off GOTOOLCHAIN=local
 mkdir -p .work evidence replays
-( cd coq && find . -name '*.v' ! -name 'cases_*' | sed 's|^\./||' | sort > .files && { echo "-Q . GoRes"; cat .files; } > _CoqProject && rm -f .files && coq_makefile -f _CoqProject -o Makefile >/dev/null && timeout 3000 make -j16 >.work_build.log 2>&1 || { tail -50 .work_build.log; exit 1; } )
+( cd coq && find . -name '*.v' ! -name 'cases_*' | sed 's|^\./||' | sort > .files && { echo "-Q . GoRes"; cat .files; } > _CoqProject && rm -f .files && coq_makefile -f _CoqProject -o Makefile >/dev/null && timeout 3000 make -k -j16 COQC="timeout 900 coqc" >.work_build.log 2>&1 || { tail -50 .work_build.log; exit 1; } )
 cp /repo/go.sum harness/go.sum
 ( cd harness && go build -tags verif ./... )
 echo setup ok
